@@ -131,6 +131,20 @@ std::string kv(char const* k, std::string const& v) { return std::string(",\"") 
 std::string ks(char const* k, char const* v) { return std::string(",\"") + k + "\":\"" + v + "\""; }
 std::string ki(char const* k, long v) { return std::string(",\"") + k + "\":" + std::to_string(v); }
 
+// event formatting lives outside the templates (keeps the per-instantiation code small)
+void emit_unary(char const* op, char const* on, int i, int j, char const* rf, char const* rt, i128 c, std::string const& ret)
+{
+    line(head(op, on) + ki("i", i) + ki("j", j) + ks("rf", rf) + ks("rt", rt) + kv("c", wide(c)) + kv("ret", ret) + "}");
+}
+void emit_binary(char const* on, char const* sp, int i, int j, char const* r1, char const* r2, i128 c1, i128 c2, std::string const& rest)
+{
+    line(head("bin", on) + ks("s", sp) + ki("i", i) + ki("j", j) + ks("r1", r1) + ks("r2", r2) + kv("c", wide(c1)) + kv("c2", wide(c2)) + rest + "}");
+}
+void emit_member(char const* on, char const* sp, int i, char const* r, i128 c, long k, std::string const& rest)
+{
+    line(head("member", on) + ks("s", sp) + ki("i", i) + ks("r", r) + kv("c", wide(c)) + ki("k", k) + rest + "}");
+}
+
 // floor / ceil / round (need common_type<To, From>)
 template <int I, int J, typename RF, typename RT>
 void rounding(std::string const& op, i128 c)
@@ -141,7 +155,7 @@ void rounding(std::string const& op, i128 c)
     auto const tp = ch::time_point<Clock, From>{d};
     constexpr bool with_tp = std::is_same_v<RF, I64> and std::is_same_v<RT, I64>;
     auto ev = [&](char const* on, std::string const& ret) {
-        line(head(op.c_str(), on) + ki("i", I) + ki("j", J) + ks("rf", RF::name) + ks("rt", RT::name) + kv("c", wide(c)) + kv("ret", ret) + "}");
+        emit_unary(op.c_str(), on, I, J, RF::name, RT::name, c, ret);
     };
     if (op == "floor") {
         ev("dur", val(ch::floor<To>(d).count()));
@@ -168,7 +182,7 @@ void unary(std::string const& op, i128 c)
     // the time_point spellings forward to the duration ones: driven for the int64 -> int64 combination only
     constexpr bool with_tp = std::is_same_v<RF, I64> and std::is_same_v<RT, I64>;
     auto ev = [&](char const* on, std::string const& ret) {
-        line(head(op.c_str(), on) + ki("i", I) + ki("j", J) + ks("rf", RF::name) + ks("rt", RT::name) + kv("c", wide(c)) + kv("ret", ret) + "}");
+        emit_unary(op.c_str(), on, I, J, RF::name, RT::name, c, ret);
     };
     if (op == "cast") {
         ev("dur", val(ch::duration_cast<To>(d).count()));
@@ -241,8 +255,7 @@ void binary_impl(std::string const& s, i128 c1, i128 c2)
     constexpr bool with_tp = std::is_same_v<R1, I64> and std::is_same_v<R2, I64>;
     auto ev = [&](char const* on, char const* sp, std::string const& rest) {
         if (on[0] == 't' and not with_tp) { return; }
-        line(head("bin", on) + ks("s", sp) + ki("i", I) + ki("j", J) + ks("r1", R1::name) + ks("r2", R2::name) + kv("c", wide(c1))
-             + kv("c2", wide(c2)) + rest + "}");
+        emit_binary(on, sp, I, J, R1::name, R2::name, c1, c2, rest);
     };
     if (s == "plus") {
         ev("dur", "plus", kv("ret", val((a + b).count())));
@@ -290,7 +303,7 @@ void member(std::string const& s, i128 c, long k)
     auto const kk = static_cast<T>(k);
     auto ev = [&](char const* on, std::string const& rest) {
         if (on[0] == 't' and not std::is_same_v<R, I64>) { return; }
-        line(head("member", on) + ks("s", s.c_str()) + ki("i", I) + ks("r", R::name) + kv("c", wide(c)) + ki("k", k) + rest + "}");
+        emit_member(on, s.c_str(), I, R::name, c, k, rest);
     };
     auto mut = [&](auto f) { // f mutates an object and returns the value of the expression
         D o       = d0;
